@@ -285,6 +285,98 @@ static void mixed_streams(void)
 				}
 }
 
+/* huge output buffers: avail_out is a uint32_t and anything up to 2^32-1 is legal (a caller that maps a large file for output hands
+ * the whole mapping over). Compression (one-shot and streaming, levels 0-3, 3 wrappers, 3 kernel sets) and decompression of the result
+ * (both APIs) with avail_out = 2^31-1, 2^31, 2^31+4096, 2^32-1 must behave exactly as with a small ample buffer: same bytes, exact counters. */
+#include <sys/mman.h>
+static void huge_avail_out(void)
+{
+	static const uint64_t aos[] = { (1ull << 31) - 1, 1ull << 31, (1ull << 31) + 4096, (1ull << 32) - 1 };
+	static const int cpus[] = { CPU_BASE, CPU_AVX2, CPU_AVX512G2 };
+	static const int gzs[] = { IGZIP_DEFLATE, IGZIP_GZIP, IGZIP_ZLIB };
+	size_t maplen = (1ull << 32) + (1 << 20);
+	uint8_t *map = mmap(NULL, maplen, PROT_READ | PROT_WRITE, MAP_PRIVATE | MAP_ANONYMOUS | MAP_NORESERVE, -1, 0);
+	if (map == MAP_FAILED) {
+		v_note("huge avail_out part skipped: cannot reserve 4 GiB of address space");
+		v_not_exhaustive("huge avail_out part skipped");
+		return;
+	}
+	enum { L = 20000 };
+	static uint8_t src[L], ref[2 * L + 600], back[L + 64];
+	static uint8_t lb[ISAL_DEF_LVL3_DEFAULT];
+	char key[300];
+	for (int kind = 0; kind < 2; kind++)
+		for (int level = 0; level <= 3; level++)
+			for (int gi = 0; gi < 3; gi++)
+				for (int ai = 0; ai < 4; ai++)
+					for (int api = 0; api < 2; api++) {
+						int cpu = cpus[(level + gi + ai + api) % 3];
+						cpu_set_level(cpu);
+						if (kind) fill_xorshift(src, L, 31); else fill_pattern(src, L, PAT_LOG, 32);
+						struct isal_zstream s;
+						/* reference: small ample buffer */
+						size_t rl = 0;
+						for (int pass = 0; pass < 2; pass++) {
+							if (api) isal_deflate_init(&s); else isal_deflate_stateless_init(&s);
+							s.level = level; s.level_buf = level ? lb : NULL; s.level_buf_size = level ? lvl_default[level] : 0; s.gzip_flag = gzs[gi];
+							s.next_in = src; s.avail_in = L; s.end_of_stream = 1;
+							s.next_out = pass ? map : ref; s.avail_out = pass ? (uint32_t)aos[ai] : sizeof ref;
+							snprintf(key, sizeof key, "huge avail_out=%llu %s level=%d wrapper=%s cpu=%s input=%s:%d", (unsigned long long)aos[ai], api ? "isal_deflate" : "isal_deflate_stateless", level, gz_name[gzs[gi]],
+								 cpu_level_name[cpu], kind ? "incompressible" : "log", L);
+							int r = -999;
+							if (V_TRY()) {
+								r = api ? isal_deflate(&s) : isal_deflate_stateless(&s);
+								V_END();
+							} else {
+								v_violation(key, "%s", v_fault_desc());
+								nfail++;
+								break;
+							}
+							v_eval();
+							if (!pass) {
+								if (r != COMP_OK)
+									v_broken("reference compression failed");
+								rl = s.total_out;
+								continue;
+							}
+							uint32_t expect_left = (uint32_t)aos[ai] - (uint32_t)rl;
+							if (r != COMP_OK || s.total_out != rl || s.avail_out != expect_left || s.next_out != map + rl || s.avail_in != 0 || memcmp(map, ref, rl) ||
+							    (api && s.internal_state.state != ZSTATE_END)) {
+								v_violation(key, "returned %d, total_out %u (small-buffer run: %zu), avail_out %u (expected %u), bytes %s", r, s.total_out, rl, s.avail_out, expect_left,
+									    memcmp(map, ref, rl) ? "differ" : "equal");
+								nfail++;
+							}
+							memset(map, 0, rl + 64);
+						}
+						/* decompress the reference stream into the huge buffer */
+						struct inflate_state st;
+						isal_inflate_init(&st);
+						st.crc_flag = gzs[gi] == IGZIP_GZIP ? ISAL_GZIP : gzs[gi] == IGZIP_ZLIB ? ISAL_ZLIB : ISAL_DEFLATE;
+						st.next_in = ref; st.avail_in = (uint32_t)rl; st.next_out = map; st.avail_out = (uint32_t)aos[ai];
+						snprintf(key, sizeof key, "huge avail_out=%llu %s wrapper=%s cpu=%s stream=level-%d of %s:%d", (unsigned long long)aos[ai], api ? "isal_inflate" : "isal_inflate_stateless", gz_name[gzs[gi]], cpu_level_name[cpu],
+							 level, kind ? "incompressible" : "log", L);
+						int r = -999;
+						if (V_TRY()) {
+							r = api ? isal_inflate(&st) : isal_inflate_stateless(&st);
+							V_END();
+							v_eval();
+							if (r != ISAL_DECOMP_OK || st.block_state != ISAL_BLOCK_FINISH || st.total_out != L || st.avail_out != (uint32_t)aos[ai] - L || st.avail_in != 0 || memcmp(map, src, L)) {
+								v_violation(key, "returned %d, state %d, total_out %u (expected %d), avail_out %u, avail_in %u, data %s", r, st.block_state, st.total_out, L, st.avail_out, st.avail_in,
+									    memcmp(map, src, L) ? "differs" : "equal");
+								nfail++;
+							}
+						} else {
+							v_violation(key, "%s", v_fault_desc());
+							nfail++;
+						}
+						memset(map, 0, L + 64);
+						(void)back;
+						v_count("huge_avail_out_cases", 1);
+						v_nontrivial(v_mix(0x40a0 + level * 8 + gi, kind * 16 + ai * 2 + api));
+					}
+	munmap(map, maplen);
+}
+
 int main(int argc, char **argv)
 {
 	v_init(argc, argv, "C10");
@@ -428,6 +520,8 @@ int main(int argc, char **argv)
 		mixed_streams();
 	if ((!v_part || !strcmp(v_part, "params")) && v_shard == 0)
 		invalid_params();
+	if ((!v_part || !strcmp(v_part, "params")) && v_shard == 1 % v_nshards)
+		huge_avail_out();
 	if (v_shard == 0) {
 		v_sample("stateless level=2 wrapper=gzip input=shape:xs:300 avail_out=bound-1 -> STATELESS_OVERFLOW; avail_out=bound -> COMP_OK, <= bound bytes, decodes to the input; output page after avail_out is PROT_NONE");
 		v_sample("termination graph input=abc*6 level=3 wrapper=zlib: all sequences of output chunk sizes from {1,2,7,8,9,15,16,17,rest} with end_of_stream set reach ZSTATE_END");
